@@ -31,13 +31,14 @@ func TestVfC17PolicyPool(t *testing.T) {
 	rng := rand.New(rand.NewSource(vfSeed()*7919 + 17))
 	errs := 0
 	done := 0
+	bad := 0 // bursts that ended with a wall-clock verdict: a few suffice (each costs the generous deadline)
 	for numConns := 1; numConns <= 3; numConns++ {
 		r, err := vfC17NewRun(numConns, 1, numConns, func(cfg *ClusterConfig) { cfg.ReconnectInterval = 0 })
 		if err != nil {
 			t.Fatalf("session: %v", err)
 		}
 		s := r.sess
-		for tr := 0; tr < trials/3; tr++ {
+		for tr := 0; tr < trials/3 && bad < 3; tr++ {
 			k := (numConns-1)*10000 + tr
 			ip := fmt.Sprintf("10.%d.%d.%d", 20+numConns, tr/200, 10+tr%200)
 			desc := vfHostDesc{ID: fmt.Sprintf("00000000-0000-0000-0002-%012d", k), Addr: ip, DC: "dc1", Rack: "r1", Tokens: []string{"5"}}
@@ -70,22 +71,50 @@ func TestVfC17PolicyPool(t *testing.T) {
 			ready.Wait()
 			time.Sleep(200 * time.Microsecond)
 			atomic.StoreInt32(&goFlag, 1)
-			okf, _ := vfWithin(5*time.Second, fin.Wait)
-			if !okf {
+			if o, _ := vfC17HungFn(fin.Wait, nil); o != vfC17Good {
 				errs++
 				continue
 			}
 			count := func() int { return r.openPerHost()[ip] }
-			// quiescence: the count has not changed for 80 ms (bounded)
-			last, since := -1, time.Now()
-			vfC17Poll(3*time.Second, func() bool {
-				c := count()
-				if c != last {
-					last, since = c, time.Now()
+			// complete: no dial in flight and no pool of this host still filling (addHost returns with the fill's
+			// background round running), read twice with no lifecycle event in between
+			complete := func() bool {
+				a0 := r.actN()
+				if r.busy() {
+					return false
 				}
-				return time.Since(since) > 80*time.Millisecond
-			})
-			_, inMap := s.pool.getPool(host)
+				for _, p := range r.poolsOf(ip) {
+					p.mu.RLock()
+					f := p.filling
+					p.mu.RUnlock()
+					if f {
+						return false
+					}
+				}
+				time.Sleep(2 * time.Millisecond)
+				return !r.busy() && r.actN() == a0
+			}
+			// good: everything has completed and the dialer sees at most NumConns connections, all of them owned by
+			// the pool in the map.  A pool just removed is closed asynchronously: anything else is declared only
+			// after the deadline with nothing in flight any more (vfC17Settle); otherwise the burst gives no verdict.
+			last, inMap := 0, false
+			o := vfC17Settle(func() bool {
+				if !complete() {
+					return false
+				}
+				last = count()
+				_, inMap = s.pool.getPool(host)
+				return last <= numConns && (inMap || last == 0) && complete()
+			}, r.actN, r.busy)
+			if o == vfC17Unsure {
+				errs++
+				continue
+			}
+			if o == vfC17Bad {
+				bad++
+				last = count()
+				_, inMap = s.pool.getPool(host)
+			}
 			q := "pool-in-map"
 			if !inMap {
 				q = "no-pool-in-map"
@@ -96,7 +125,16 @@ func TestVfC17PolicyPool(t *testing.T) {
 				Gor: nAdd*10 + nRem})
 			// the host goes away: nothing may stay open
 			s.pool.removeHost(host.HostID())
-			vfC17Poll(2*time.Second, func() bool { return count() == 0 })
+			if o == vfC17Good {
+				// nothing stays open: early exit; otherwise only after the deadline with nothing in flight
+				switch vfC17Settle(func() bool { return count() == 0 }, r.actN, r.busy) {
+				case vfC17Unsure:
+					errs++
+					continue
+				case vfC17Bad:
+					bad++
+				}
+			}
 			out.Write(vfC17Rec{Sched: sched, K: 2, Ev: "h_host_closed", A: count(), Size: numConns, Conns: []int{}, Open: []int{}, Dead: []int{}})
 			done++
 			// whatever was left behind would distort nothing else: close it
@@ -108,7 +146,7 @@ func TestVfC17PolicyPool(t *testing.T) {
 			}
 			r.mu.Unlock()
 		}
-		vfWithin(vfC17CloseWatchdog, s.Close)
+		vfC17HungFn(s.Close, nil)
 		r.dropConnScope()
 	}
 	fmt.Printf("VFSUMMARY {\"Trials\":%d,\"Errors\":%d}\n", done, errs)
